@@ -360,6 +360,7 @@ struct Saved {
     bool writer_pristine = false; // writer was loaded and not modified before saving
     int source = -1;     // index of the Saved the writer was loaded from (-1 none)
     bool premise_broken = false; // a frame outside the documented shapes had been accepted before this save
+    std::string refusedTaint;
     bool complete = false;       // every frame carried exactly the declared points and channels
     bool api_lineage = true;     // the content originates from API construction (possibly through restarts), not from an external file
     std::vector<SnapFrame> model;
@@ -380,6 +381,7 @@ private:
     std::vector<EFrame> lastCol;
     std::vector<Saved> saved;
     bool premise_broken = false, i5 = true, stop = false;
+    std::string refusedTaint; // C05 only: the first refused call that changed the object ("" if none)
     int gen = 0;            // 0 built through the API, n >= 1: n-th generation of load
     bool pristine = false;  // loaded and not modified since
     int loaded_from = -1;   // index into saved
@@ -495,8 +497,15 @@ void World::afterCall(const Step &st, bool threw, const std::string &exc, const 
         mutated();
     }
     if (threw && mutating && hash_snapshot(before) != hash_snapshot(cur) && !premise_broken) {
-        // C10's business; from here on the history is outside C05's quantifier
-        premise_broken = true; res.st.premise_broken++; probe("premise.refused-call-changed-object");
+        // C10's business. Under C05 the history goes on ("after every successful public call" includes the calls that
+        // follow), but a disagreement found from here on names the refused call that changed the object, so that the
+        // known family (objects loaded from files that lack a parameter the updaters need) stays apart from any other.
+        if (on(ORC_C05)) {
+            if (refusedTaint.empty()) {
+                refusedTaint = (gen >= 1 && lastWhat.find("could not find") != std::string::npos) ? std::string("loaded-file-lacks-parameter") : std::string(op_name(st.op)) + "/" + exc;
+                probe("c05.goes-on-after-a-refused-call-changed-the-object");
+            }
+        } else { premise_broken = true; res.st.premise_broken++; probe("premise.refused-call-changed-object"); }
     }
     if (threw && mutating && hash_snapshot(before) != hash_snapshot(cur)) mutated(); // the object is not the one saved before
     if (!stop && on(ORC_C05) && !premise_broken && !threw && mutating) {
@@ -505,8 +514,11 @@ void World::afterCall(const Step &st, bool threw, const std::string &exc, const 
         std::string d = check_c05(cur, i5, &facet, &fi);
         if (!d.empty()) {
             std::string key = facet + "/" + op_name(st.op);
-            if (!ctxTag.empty()) key += "/" + ctxTag;
-            if (fi != SIZE_MAX && fi < before.frames.size() && before.frames[fi].empty()) key += "/gap-frame";
+            if (!refusedTaint.empty()) key += "/after-refused-call-changed-object:" + refusedTaint;
+            else {
+                if (!ctxTag.empty()) key += "/" + ctxTag;
+                if (fi != SIZE_MAX && fi < before.frames.size() && before.frames[fi].empty()) key += "/gap-frame";
+            }
             violate("C05", key, d);
         }
     }
@@ -524,7 +536,7 @@ void World::afterCall(const Step &st, bool threw, const std::string &exc, const 
 void World::doNew() {
     obj.reset();
     obj.reset(new ezc3d::c3d());
-    gen = 0; pristine = false; loaded_from = -1; i5 = true; premise_broken = false; model.clear(); api_lineage = true;
+    gen = 0; pristine = false; loaded_from = -1; i5 = true; premise_broken = false; refusedTaint.clear(); model.clear(); api_lineage = true;
     ++version;
 }
 
@@ -617,7 +629,7 @@ void World::doLoad(const Step &st, StepRecord &rec) {
     if (ok) {
         cur = take_snapshot(*obj);
         gen = 1; pristine = true; loaded_from = -1;
-        premise_broken = false; model = cur.frames; api_lineage = false;
+        premise_broken = false; refusedTaint.clear(); model = cur.frames; api_lineage = false;
         std::string f;
         i5 = check_c05(cur, true, &f).empty(); // I5 only claimed for histories in which it held after the load
         // register the external file as "saved" so that generations can be tracked
@@ -861,7 +873,19 @@ void World::doParamEdit(const Step &st, StepRecord &rec) {
     size_t gi = static_cast<size_t>(st.i[0]) % cur.groups.size();
     if (cur.groups[gi].params.empty() || cur.groups[gi].name.empty()) { rec.skipped = true; return; }
     size_t pi = static_cast<size_t>(st.i[1]) % cur.groups[gi].params.size();
-    int kind = static_cast<int>(st.i[2]) % 3;
+    int kind = static_cast<int>(st.i[2]) % 4;
+    // kind 3: no copy at all - the object's own parameter is handed (by reference) to c3d::parameter for another group,
+    // possibly one that does not exist yet, so that the group store grows while the argument lives inside it
+    bool alias = kind == 3;
+    std::string target = cur.groups[gi].name;
+    if (alias) {
+        int64_t sel = st.i.size() > 3 ? st.i[3] : 0;
+        if (sel % 3 == 0) target = cur.groups[static_cast<size_t>(sel / 3) % cur.groups.size()].name;
+        else target = st.s.size() > 1 ? st.s[1] : std::string("ALIAS");
+        if (target.empty()) { rec.skipped = true; return; }
+        // handing e.g. ANALOG:USED to the POINT group is the user rewriting the shape parameters by hand: outside every premise
+        if ((target == "POINT" || target == "ANALOG") && target != cur.groups[gi].name) { rec.skipped = true; return; }
+    }
     EParam p(obj->parameters().group(gi).parameter(pi)); // a copy
     if (kind == 0 || kind == 2) p.description(st.s[0]);
     if (kind == 1 || kind == 2) { if (p.isLocked()) p.unlock(); else p.lock(); }
@@ -869,26 +893,31 @@ void World::doParamEdit(const Step &st, StepRecord &rec) {
     Snapshot before = cur;
     std::vector<uint8_t> preImg;
     if (on(ORC_C10)) preImg = preImage();
-    try { obj->parameter(cur.groups[gi].name, p); } catch (...) { rec.threw = true; rec.exc = classify_current_exception(&lastWhat); }
+    try {
+        if (alias) obj->parameter(target, obj->parameters().group(gi).parameter(pi));
+        else obj->parameter(target, p);
+    } catch (...) { rec.threw = true; rec.exc = classify_current_exception(&lastWhat); }
     cur = take_snapshot(*obj);
     if (on(ORC_C09)) {
         if (rec.threw) {
             if (gen >= 1 && lastWhat.find("could not find") != std::string::npos) violate("C09", "parameter/refused-valid/loaded-file-lacks-parameter", "a parameter copied out of the object and handed back was refused on an object loaded from a file (" + lastWhat + ")");
-            else violate("C09", "parameter-edit/refused/" + rec.exc, "a parameter copied out of the object, edited and handed back was refused: " + rec.exc + " (" + lastWhat + ")");
+            else violate("C09", std::string(alias ? "parameter-alias" : "parameter-edit") + "/refused/" + rec.exc, "a parameter of the object, handed back, was refused: " + rec.exc + " (" + lastWhat + ")");
         } else {
             Snapshot e2 = before;
             // the FIRST group of that name receives it (a file may hold two groups with one name), and in it the first
-            // parameter of that name is replaced, otherwise the parameter is appended
-            size_t tg = gi;
-            for (size_t g = 0; g < e2.groups.size(); ++g) if (e2.groups[g].name == before.groups[gi].name) { tg = g; break; }
+            // parameter of that name is replaced, otherwise the parameter is appended; an unknown group is created at the end
+            size_t tg = e2.groups.size();
+            for (size_t g = 0; g < e2.groups.size(); ++g) if (e2.groups[g].name == target) { tg = g; break; }
+            if (tg == e2.groups.size()) { SnapGroup ng; ng.name = target; e2.groups.push_back(ng); }
             size_t tgt = e2.groups[tg].params.size();
             for (size_t q = 0; q < e2.groups[tg].params.size(); ++q) if (e2.groups[tg].params[q].name == handed.name) { tgt = q; break; }
             if (tgt == e2.groups[tg].params.size()) e2.groups[tg].params.push_back(handed); else e2.groups[tg].params[tgt] = handed;
             DiffOpts o; o.skip_header = true; o.skip_frames = true;
             std::string fc, d = diff_snapshots(e2, cur, o, &fc);
-            if (!d.empty()) violate("C09", "parameter-edit/tree/" + fc, "after handing back an edited copy the tree is not 'exactly what was asked': " + d);
+            if (!d.empty()) violate("C09", std::string(alias ? "parameter-alias" : "parameter-edit") + "/tree/" + fc, "after handing back a parameter of the object the tree is not 'exactly what was asked': " + d);
         }
     }
+    if (alias) probe("param.alias-own-parameter");
     probe("param.edit-copy");
     afterCall(st, rec.threw, rec.exc, before, true);
     if (!stop && rec.threw && on(ORC_C10)) {
@@ -1144,10 +1173,14 @@ void World::doCol(const Step &st, StepRecord &rec, bool analog) {
         if (dev == CDEV_SHORT_LATER_FRAME && f > 0 && f + 1 == nF && cnt > 0) --cnt;
         if (analog) {
             EAnalogs an;
+            // CDEV_SHORT_LATER_SUB: one sub-frame other than the first, in one frame, lacks the last channel (the frames'
+            // first sub-frames all look right)
+            size_t shortF = nF ? static_cast<size_t>(st.i[1] % static_cast<int64_t>(nF)) : 0, shortK = nsub > 1 ? 1 + static_cast<size_t>((st.i[1] / 7) % static_cast<int64_t>(nsub - 1)) : 0;
             for (size_t k = 0; k < nsub; ++k) {
                 ESub sf;
                 ef.subs.push_back(std::vector<SnapChan>());
-                for (size_t c = 0; c < cnt; ++c) { EChan ch; SnapChan sc; sc.name = names[c]; sc.v = gen_float_bits(r); ch.name(names[c]); ch.data(bits2f(sc.v)); sf.channel(ch); ef.subs.back().push_back(sc); }
+                size_t cntK = (dev == CDEV_SHORT_LATER_SUB && shortK && f == shortF && k == shortK && cnt > 0) ? cnt - 1 : cnt;
+                for (size_t c = 0; c < cntK; ++c) { EChan ch; SnapChan sc; sc.name = names[c]; sc.v = gen_float_bits(r); ch.name(names[c]); ch.data(bits2f(sc.v)); sf.channel(ch); ef.subs.back().push_back(sc); }
                 an.subframe(sf);
             }
             fr.add(an);
@@ -1313,7 +1346,7 @@ void World::doSave(const Step &st, StepRecord &rec) {
     }
     if (good) {
         Saved sv;
-        sv.path = path; sv.snap = cur; sv.image = img; sv.writer_gen = gen; sv.writer_pristine = pristine; sv.source = loaded_from; sv.premise_broken = premise_broken; sv.complete = frames_complete(cur) || (pristine && gen >= 1); /* content that came from a file and was not edited is a valid C04 subject whatever its labels look like */ sv.model = model; sv.api_lineage = api_lineage;
+        sv.path = path; sv.snap = cur; sv.image = img; sv.writer_gen = gen; sv.writer_pristine = pristine; sv.source = loaded_from; sv.premise_broken = premise_broken; sv.refusedTaint = refusedTaint; sv.complete = frames_complete(cur) || (pristine && gen >= 1); /* content that came from a file and was not edited is a valid C04 subject whatever its labels look like */ sv.model = model; sv.api_lineage = api_lineage;
         // replace an older entry for the same path
         bool rep = false;
         for (auto &s : saved) if (s.path == path) { s = sv; rep = true; break; }
@@ -1363,6 +1396,7 @@ void World::doReload(const Step &st, StepRecord &rec) {
     loaded_from = static_cast<int>(si);
     api_lineage = sv.api_lineage;
     premise_broken = sv.premise_broken; // a file written from an out-of-premise object stays out of premise
+    refusedTaint = sv.refusedTaint;
     model = cur.frames;
     if (enabled && (api || sv.writer_pristine)) {
         DiffOpts o;
@@ -1388,7 +1422,7 @@ void World::doReload(const Step &st, StepRecord &rec) {
     if (!stop && on(ORC_C05) && !api) { /* a reload is a successful public call too */ }
     if (!stop && on(ORC_C05) && !premise_broken) {
         std::string facet, d = check_c05(cur, i5, &facet);
-        if (!d.empty()) violate("C05", facet + "/RELOAD", d);
+        if (!d.empty()) violate("C05", facet + "/RELOAD" + (sv.refusedTaint.empty() ? std::string() : "/after-refused-call-changed-object:" + sv.refusedTaint), d);
     }
 }
 
